@@ -4,6 +4,7 @@
 //   zipf_replay sweep <exact|approx> <type> <seed> <count>   random (min,max,alpha,u incl. breakpoints) bracket checks
 //   zipf_replay ctor-invalid <type>               construct with max < min at extreme bounds (run under UBSan)
 //   zipf_replay grid <quick|thorough>             C18 bounded numeric check against a long double reference
+//   zipf_replay purity <exact|approx> <type>      C19: rerun / equal parameters / copy / move / one const generator shared by threads
 // exit 0 ok, 1 "REPLAY-FAIL: ..." printed, 3 usage
 #include <cmath>
 #include <cstdint>
@@ -14,6 +15,7 @@
 #include <random>
 #include <stdexcept>
 #include <string>
+#include <thread>
 #include <vector>
 
 #include "dbgroup/random/zipf.hpp"
@@ -283,6 +285,82 @@ done:
     return 3;                                    \
   } while (0)
 
+// C19: a generator is a pure function of its parameters and the engine
+template <class Dist, class T>
+static int
+PurityOf(const char *cls, const char *ty, T min, T max, double alpha)
+{
+  const Dist d{min, max, alpha};
+  auto seq = [](const Dist &g, uint64_t seed, int n) {
+    std::mt19937_64 e{seed};
+    std::vector<T> out;
+    out.reserve(n);
+    for (int i = 0; i < n; ++i) out.push_back(g(e));
+    return out;
+  };
+  const int kN = 20000;
+  const auto ref = seq(d, 42, kN);
+  if (seq(d, 42, kN) != ref) { ++failures; std::printf("REPLAY-FAIL: %s<%s>(%lld, %lld, %g): the same generator gives a different sequence on a second run from the same engine state\n", cls, ty, (long long)min, (long long)max, alpha); }
+  const Dist same{min, max, alpha};
+  if (seq(same, 42, kN) != ref) { ++failures; std::printf("REPLAY-FAIL: %s<%s>(%lld, %lld, %g): two generators with equal parameters differ\n", cls, ty, (long long)min, (long long)max, alpha); }
+  // another generator used on this thread in between must not matter
+  const Dist other{min, max, alpha + 0.75};
+  (void)seq(other, 7, 2000);
+  if (seq(d, 42, kN) != ref) { ++failures; std::printf("REPLAY-FAIL: %s<%s>(%lld, %lld, %g): using another generator on the same thread changed this generator's output\n", cls, ty, (long long)min, (long long)max, alpha); }
+  Dist copy{d};
+  if (seq(copy, 42, kN) != ref) { ++failures; std::printf("REPLAY-FAIL: %s<%s>(%lld, %lld, %g): a copy differs from its source\n", cls, ty, (long long)min, (long long)max, alpha); }
+  Dist moved{std::move(copy)};
+  if (seq(moved, 42, kN) != ref) { ++failures; std::printf("REPLAY-FAIL: %s<%s>(%lld, %lld, %g): a moved generator differs from its source\n", cls, ty, (long long)min, (long long)max, alpha); }
+  Dist assigned{};
+  assigned = d;
+  if (seq(assigned, 42, kN) != ref) { ++failures; std::printf("REPLAY-FAIL: %s<%s>(%lld, %lld, %g): a copy-assigned generator differs from its source\n", cls, ty, (long long)min, (long long)max, alpha); }
+  // one const generator shared by threads, each with its own engine
+  const int kThreads = 8, kM = 60000;
+  std::vector<std::vector<T>> solo(kThreads), shared(kThreads);
+  for (int t = 0; t < kThreads; ++t) solo[t] = seq(d, 1000 + t, kM);
+  for (int round = 0; round < 3; ++round) {
+    std::vector<std::thread> ths;
+    for (int t = 0; t < kThreads; ++t) ths.emplace_back([&, t] { shared[t] = seq(d, 1000 + t, kM); });
+    for (auto &th : ths) th.join();
+    for (int t = 0; t < kThreads; ++t) {
+      if (shared[t] != solo[t]) {
+        long bad = 0;
+        for (int i = 0; i < kM; ++i) bad += shared[t][i] != solo[t][i];
+        ++failures;
+        std::printf("REPLAY-FAIL: %s<%s>(%lld, %lld, %g): thread %d sharing one const generator got %ld of %d samples different from the sequence it gets alone\n", cls, ty, (long long)min, (long long)max, alpha, t, bad, kM);
+        return 1;
+      }
+    }
+  }
+  return failures ? 1 : 0;
+}
+
+template <class T>
+static int
+Purity(const std::string &cls, const char *ty)
+{
+  const T lo = std::numeric_limits<T>::is_signed ? static_cast<T>(-5) : static_cast<T>(3);
+  const long long widths[] = {0, 1, 49, 99, 100, 150, 1000, 99999, 1000000};
+  for (long long w : widths) {
+    for (double alpha : {0.0, 0.5, 1.0, 2.0}) {
+      const T mx = static_cast<T>(lo + static_cast<T>(w));
+      const int rc = cls == "exact" ? PurityOf<ZipfDistribution<T>, T>("ZipfDistribution", ty, lo, mx, alpha)
+                                    : PurityOf<ApproxZipfDistribution<T>, T>("ApproxZipfDistribution", ty, lo, mx, alpha);
+      if (rc != 0) return 1;
+      if (cls == "exact" && w > 100000) break;
+    }
+  }
+  // construction with max < min is rejected
+  bool thrown = false;
+  try {
+    if (cls == "exact") { ZipfDistribution<T> bad{static_cast<T>(10), static_cast<T>(9), 1.0}; (void)bad; }
+    else { ApproxZipfDistribution<T> bad{static_cast<T>(10), static_cast<T>(9), 1.0}; (void)bad; }
+  } catch (const std::exception &) { thrown = true; }
+  if (!thrown) { ++failures; std::printf("REPLAY-FAIL: %s<%s>: construction with max < min produced a generator instead of an exception\n", cls.c_str(), ty); }
+  std::printf("purity %s %s: %s\n", cls.c_str(), ty, failures ? "FAILED" : "ok");
+  return failures ? 1 : 0;
+}
+
 int
 main(int argc, char **argv)
 {
@@ -301,6 +379,10 @@ main(int argc, char **argv)
     DISPATCH(argv[3], (Sweep<T>(cls, argv[3], std::strtoull(argv[4], nullptr, 0), std::strtol(argv[5], nullptr, 0))));
   }
   if (mode == "ctor-invalid" && argc >= 3) DISPATCH(argv[2], (CtorInvalid<T>(argv[2])));
+  if (mode == "purity" && argc >= 4) {
+    const std::string cls = argv[2];
+    DISPATCH(argv[3], (Purity<T>(cls, argv[3])));
+  }
   if (mode == "grid" && argc >= 3) return Grid(std::string(argv[2]) == "thorough");
   return 3;
 }
